@@ -42,8 +42,8 @@ type c12Case struct {
 	// FastAck: the peer acknowledges a SETUP from inside the client's Write
 	// call (an instantly answering server), so that the acknowledgement can
 	// reach the reader before NewChannel has done anything after its write.
-	FastAck bool `json:"fast_ack"`
-	Note       string `json:"note,omitempty"`
+	FastAck bool   `json:"fast_ack"`
+	Note    string `json:"note,omitempty"`
 }
 
 type c12Hdr struct {
@@ -56,30 +56,30 @@ type c12Peer struct {
 	in  chan xport.WriteRec
 	rnd *rt.Rand
 
-	mu       sync.Mutex
-	seen     []xport.Header
-	partial  map[uint16][]byte
-	pending  map[uint16][][]byte
-	order    []uint16 // channels with pending packets (may repeat)
-	sent     map[uint16][]int32
-	round    map[uint16]int
-	setups   []uint16
-	injected int
-	toInject int
-	unsol    int32 // unsolicited responses sent on channel 0
-	stop     chan struct{}
-	done     chan struct{}
-	logoutOK bool
+	mu        sync.Mutex
+	seen      []xport.Header
+	partial   map[uint16][]byte
+	pending   map[uint16][][]byte
+	order     []uint16 // channels with pending packets (may repeat)
+	sent      map[uint16][]int32
+	round     map[uint16]int
+	setups    []uint16
+	injected  int
+	toInject  int
+	unsol     int32 // unsolicited responses sent on channel 0
+	stop      chan struct{}
+	done      chan struct{}
+	logoutOK  bool
 	stream    []byte // bytes written by the client and not yet cut into packets
 	streamOff int
 	garbled   string // set when the stream stopped parsing as packets
 	onGarbled func() // ends the run early (clients would wait for answers that never come)
 	fastAck   bool   // SETUPs are acknowledged by the transport hook already
 	// quiescence bookkeeping
-	submitted int64 // write records handed to the peer (atomic)
-	handled   int64 // write records processed (atomic)
-	feeding   int   // packets taken from pending but not yet fed (under mu)
-	expectCh  int   // number of logical channels the run will create
+	submitted int64  // write records handed to the peer (atomic)
+	handled   int64  // write records processed (atomic)
+	feeding   int    // packets taken from pending but not yet fed (under mu)
+	expectCh  int    // number of logical channels the run will create
 	created   *int32 // NewChannel calls that have returned (atomic)
 }
 
